@@ -88,7 +88,7 @@ theorem clamp_inBounds {p : Props} (h : BoundsOk p) (v : Val) : inBounds p (clam
     | some hi =>
       have hh := Val.le_refl_fin (h.hi hi hhi)
       have hlh := h.le lo hi hlo hhi
-      simp only [Option.getD_some, Option.getD_none]
+      simp only [Option.getD_some]
       repeat' split
       all_goals simp_all [Val.le_of_lt]
 
